@@ -12,6 +12,15 @@ observation: `walk=<ids in the order the real graph holds them>;<result>|<result
 (`a,b,c`, `-`, `err:root:<id>`), or `walk=…;err:missing:<id>` when graph construction failed.
 The model receives the nodes **in the walk order taken from the observation** (the order `read_dir` happened to
 produce is not a function of the case); the spec verdict never looks at that order.
+
+Second family (first field `pkg`): the real `cargo libcnb package` executable on a generated workspace.
+fields: `pkg`, buildpacks `id>K>dir>dep,dep|…` (`K` = `L` libcnb.rs / `C` composite, `dir` relative to the workspace
+root, `.` = the root), invocation directories `dir;dir;…` (one run of the executable per entry).
+observation: `walk=<ids in directory-walk order>;<result>|<result>|…`, one result per invocation directory:
+`<ids in the order of the "[n/m] Building <id>" progress lines, - if none>:<ok | err:<kind>>`.
+The model's result is `packagingOrder` (Model/DepGraph.lean) on the buildpacks in walk order; the verdict applies the
+same judge as above (`Topo.whyNot`) to the order the executable really packaged in, with the selection read off the
+case (the buildpack in the invocation directory, else all of them from the root) — never the walk, never the model.
 -/
 namespace CnbVerif.DriverC13
 open CnbVerif CnbVerif.DepGraph CnbVerif.Spec
@@ -98,9 +107,98 @@ def distinct : List String → Bool
   | [] => true
   | x :: xs => !xs.contains x && distinct xs
 
+/-! ### the `pkg` family -/
+
+def parseLocated (s : String) : Option Located :=
+  match s.splitOn ">" with
+  | [i, k, d, ds] => if i = "" || d = "" || !(k = "L" || k = "C") then none else some ⟨⟨i, splitList ds ","⟩, d⟩
+  | _ => none
+
+def parseLocatedAll (s : String) : Option (List Located) := allSome ((splitList s "|").map parseLocated)
+
+def errName : ExecErr → String
+  | .missingDependency _ => "missing-dep"
+  | .unknownRoot _ => "unknown-root"
+  | .noBuildpacksFound => "no-buildpacks"
+
+def pkgModelResult (ordered : List Located) (inv : String) : String :=
+  match packagingOrder ordered inv with
+  | .ok out => renderIds out ++ ":ok"
+  | .error e => "-:err:" ++ errName e
+
+def pkgModel (bps : List Located) (walk : List String) (invs : List String) : String :=
+  let ordered := walk.filterMap (fun x => bps.find? (fun b => b.node.id = x))
+  "walk=" ++ renderIds walk ++ ";" ++ String.intercalate "|" (invs.map (pkgModelResult ordered))
+
+/-- the selection a user makes by invoking the tool in `inv`, read from the case (not from the model): the
+buildpack living there; from the workspace root (when no buildpack lives there) all of them; else nothing -/
+def selectionOf (bps : List Located) (inv : String) : List String :=
+  match bps.find? (fun b => b.dir = inv) with
+  | some b => [b.node.id]
+  | none => if inv = "." then bps.map (·.node.id) else []
+
+/-- `<order>:<status>` -/
+def splitResult (res : String) : Option (List String × String) :=
+  match res.splitOn ":" with
+  | o :: st :: more => some (splitList o ",", String.intercalate ":" (st :: more))
+  | _ => none
+
+def pkgJudgeOne (bps : List Located) (inv : String) (res : String) : Option String :=
+  let nodes := bps.map (·.node)
+  let ids := nodes.map (·.id)
+  match splitResult res with
+  | none => some ("unparsable result " ++ res)
+  | some (out, status) =>
+    let sel := selectionOf bps inv
+    if sel.isEmpty then
+      if out.isEmpty && status = "err:no-buildpacks" then none
+      else some ("from " ++ inv ++ " nothing is selected, yet: " ++ res)
+    else
+      match out.find? (fun x => !ids.contains x) with
+      | some x => some ("from " ++ inv ++ ": unknown buildpack in the order: " ++ x)
+      | none =>
+        match Topo.whyNot (depsOf nodes) sel ids.length out id with
+        | some w => some ("from " ++ inv ++ " (selected " ++ renderIds sel ++ "; " ++ status ++ "): " ++ w)
+        | none => if status = "ok" then none else some ("from " ++ inv ++ ": packaging failed with " ++ status)
+
+def pkgJudgeAll (bps : List Located) : List String → List String → Option String
+  | [], [] => none
+  | inv :: is, r :: rs =>
+    match pkgJudgeOne bps inv r with
+    | some w => some w
+    | none => pkgJudgeAll bps is rs
+  | _, _ => some "number of results differs from the number of invocations"
+
+def pkgVerdict (bps : List Located) (invs : List String) (body : String) : String :=
+  let nodes := bps.map (·.node)
+  let ids := nodes.map (·.id)
+  let results := body.splitOn "|"
+  let dangling := nodes.flatMap (fun nd => nd.deps.filter (fun d => !ids.contains d))
+  if !dangling.isEmpty then
+    if results.length = invs.length && results.all (fun r => r = "-:err:missing-dep") then "ok"
+    else "fail:dependency on unknown buildpack " ++ dangling.headD "" ++ " was not reported (or something was packaged): " ++ body
+  else
+    match pkgJudgeAll bps invs results with
+    | none => "ok"
+    | some w => "fail:" ++ w
+
+def handlePkg (bs is : String) (obs : String) : String × String :=
+  match parseLocatedAll bs with
+  | none => ("bad-op", "bad-op")
+  | some bps =>
+    let invs := splitList is ";"
+    if !distinct (bps.map (·.node.id)) || !distinct (bps.map (·.dir)) || invs.isEmpty || invs.any (· = "") then ("bad-op", "bad-op") else
+    if obs.startsWith "walk=" then
+      match ((obs.drop 5).toString).splitOn ";" with
+      | [w, body] => (pkgModel bps (splitList w ",") invs, pkgVerdict bps invs body)
+      | _ => ("unparsable-observation", "fail:unparsable-observation")
+    else ("no-walk", "fail:" ++ obs)
+
 def handle (fields : List String) (obs : String) : String × String :=
   match fields with
-  | [ns, rs, _layout] =>
+  | ["pkg", bs, is] => handlePkg bs is obs
+  | [ns, rs, layout] =>
+    if layout.toNat?.isNone then ("bad-op", "bad-op") else
     match parseNodes ns with
     | none => ("bad-op", "bad-op")
     | some nodes =>
